@@ -311,6 +311,7 @@ pub fn suite_cache(rng: &mut Rng, cases: u64, t: &mut Trace, pname: &str) {
     let sched = Sched::new();
     stretto::verif::install(Some(sched.clone()));
     let mut stalls = 0u64;
+    let mut confirmed_hangs = 0u64;
     let mut id = 0u64;
     let mut attempt = 0u32;
     let mut rng_at_case = rng.clone();
@@ -389,16 +390,25 @@ pub fn suite_cache(rng: &mut Rng, cases: u64, t: &mut Trace, pname: &str) {
         t.mark_nontrivial();
         // (a worker that panicked is not a stall of the machine: nothing to run again)
         let panicked = crate::sched::PANICS.load(std::sync::atomic::Ordering::SeqCst) > panics_before;
-        if case.hung && attempt == 0 && !panicked {
+        // (nor are hangs that keep coming back: after a few confirmed ones they are reported as they
+        // come, and after a few more the suite stops early — every hang costs its whole timeout)
+        if case.hung && attempt == 0 && !panicked && confirmed_hangs < 4 {
             case.mon.discard();
             case.abandon();
             stalls += 1;
             attempt = 1;
             continue;
         }
+        if case.hung {
+            confirmed_hangs += 1;
+        }
         case.finish(t, rng);
         attempt = 0;
         id += 1;
+        if confirmed_hangs >= 6 {
+            eprintln!("note: {} cases hung for good; the suite stops after {} of {} cases", confirmed_hangs, id, cases);
+            break;
+        }
     }
     if stalls > 0 {
         eprintln!("note: {} case(s) stalled (an actor did not arrive in time) and were run again", stalls);
